@@ -66,9 +66,21 @@ def _regpt(P):
     return P
 
 
+def _concrete_tuple_facts(ip, X, Y, Z, T):
+    """a tuple of NUMERALS (e.g. a hoisted constant such as (0,1,1,0)): its validity and its point follow from the definitions
+    (schemas voc_valid_def, voc_valid3_def, voc_pt_affine - proved in Lean like every other schema); instantiated for numerals only"""
+    if all(sym.as_const_int(v) is not None for v in (X, Y, Z, T)) and sym.FACTS.reg("edconcrete", X, Y, Z, T):
+        module_d(ip)
+        sym.FACTS.add(_voc("voc_valid_def", X, Y, Z, T), "T1:voc_valid_def")
+        sym.FACTS.add(_voc("voc_valid3_def", X, Y, Z), "T1:voc_valid3_def")
+        sym.FACTS.add(_voc("voc_pt_affine", X, Y, Z), "T1:voc_pt_affine")
+        sym.FACTS.add(_voc("voc_aff_O"), "T1:voc_aff_O")
+
+
 def ed_valid(ip, t):
     X, Y, Z, T = _pt4(t)
     v = f_valid(X, Y, Z, T)
+    _concrete_tuple_facts(ip, X, Y, Z, T)
     if sym.FACTS.reg("edvalid", X, Y, Z, T):
         # valid => reduced coordinates and the T-free part
         sym.FACTS.add(_voc("voc_valid_reduced", X, Y, Z, T), "T1:voc_valid_reduced")
@@ -77,11 +89,13 @@ def ed_valid(ip, t):
 
 def ed_valid3(ip, t):
     X, Y, Z, T = _pt4(t)
+    _concrete_tuple_facts(ip, X, Y, Z, T)
     return mkbool(f_valid3(X, Y, Z))
 
 
 def ed_pt(ip, t):
     X, Y, Z, T = _pt4(t)
+    _concrete_tuple_facts(ip, X, Y, Z, T)
     return SPoint(_regpt(f_pt(X, Y, Z)))
 
 
